@@ -3,7 +3,7 @@ CONSTANTS
   NS = 2
   MaxF = 2
   MaxEnv = 2
-  MaxCol = 3
+  MaxCol = 2
   MaxPause = 1
   MaxCkpt = 1
   GreedySets = {{}}
